@@ -400,8 +400,13 @@ def run_check(mod, prop, tier, seed, replay_path=None):
             except Exception as e:
                 ctx.notes.append("search crashed: " + traceback.format_exc()[-1500:])
                 findings = []
-            if not findings:
-                findings = [Finding(
+            known0 = load_known()
+            unexplained = bool(ctx.broken) or any(not k.startswith("property:") for k, _ in ctx.disagreements)
+            fresh = [f for f in findings if f.no_input or not any(
+                k.get("property") == prop and k.get("signature") == f.signature for k in known0)]
+            # a listed known finding does not explain a broken obligation or a model-vs-code disagreement
+            if unexplained and not fresh:
+                findings = findings + [Finding(
                     signature="unproved:" + hashlib.sha1(json.dumps(why, sort_keys=True, default=str).encode()).hexdigest()[:8],
                     what="proof obligation or correspondence no longer checks; no failing input found",
                     data=why, no_input=True)]
